@@ -293,6 +293,12 @@ var purityUnrelated = []string{"1 + 2 * 3", "'a' + 'b'", "[1, 2, 3]", "len('abc'
 	// spread of an array literal (the call's argument list and the literal's element list are both slices of the tree);
 	// locals read and written by runners that were never given a data map
 	"max([x]...)", "max(x, [1, 2]...)", "min(1, 2, [x, 3]...)", "max([1]...) + max([2, 3]...)", "$z ?? 1", "$rate ?? 1", "$rate = 3, $rate * 2", "typeof $z",
+	// zone-sensitive observations next to evaluations that name other zones (valid and unknown)
+	"millSecond(date(2020, 1, 1))", "useTimezone(date(2020, 1, 1), 'Asia/Tokyo')", "timeFormat(date(2020, 6, 1), '2006-01-02 15:04 -0700')",
+	"hour(useTimezone(date(2020, 1, 1), 'America/New_York'))", "useTimezone(date(2020, 1, 1), 'No/Such')", "day(addDate(date(2020, 1, 31), 0, 1, 0))",
+	"millSecond(date(2020, 1, 1)) - millSecond(useTimezone(date(2020, 1, 1), 'Asia/Kolkata'))",
+	// texts the parser gives up on before the end of the input, next to ordinary ones
+	"1 )", "(1 2", "f(1 2", "a b", "price * qty + 1", "[1, 2] 3", "'s' 't'",
 	"regexp('a', 'a')", "regexp('a', '(')", "regexp('ab', '[')", "regexp('ab', 'a.')", "regexp('(', '(')",
 	"\u0663 + 1", "n\u0663 * 2", "\u0301 + 1", "cafe\u0301 + 1", "\u203f", "a\u203f", "\u2118x", "x\u2118", "\u00aa\u00b7", "\u00b7\u00aa"}
 
